@@ -26,6 +26,7 @@ func cmdMeasure(args []string) int {
 	in := fs.String("in", "", "JSON file {fn, e, a}")
 	maxAlloc := fs.Uint64("max-alloc", 1<<30, "abort above this many allocated bytes")
 	maxTime := fs.Duration("max-time", 10*time.Second, "abort after this long")
+	history := fs.Int("history", 0, "number of DISTINCT unrelated calls made before the measured one (cost must not depend on it)")
 	_ = fs.Parse(args)
 	b, err := os.ReadFile(*in)
 	if err != nil {
@@ -39,6 +40,19 @@ func cmdMeasure(args []string) int {
 	}
 	// warm up the package (table construction, regexp caches) so that the measured call is steady-state
 	spdxexp.ValidateLicenses([]string{"MIT"})
+	for i := 0; i < *history; i++ {
+		junk := fmt.Sprintf("Junk-%d.%d", i, i*7)
+		switch i % 4 {
+		case 0:
+			spdxexp.ValidateLicenses([]string{junk})
+		case 1:
+			spdxexp.Satisfies("MIT", []string{junk})
+		case 2:
+			spdxexp.ExtractLicenses("LicenseRef-" + junk + " OR MIT")
+		default:
+			spdxexp.Satisfies("mIt AND LicenseRef-"+junk, []string{"MIT", "LicenseRef-" + junk})
+		}
+	}
 	runtime.GC()
 	var m0 runtime.MemStats
 	runtime.ReadMemStats(&m0)
